@@ -304,6 +304,8 @@ def check_value_stacks(chk, rep, tier, only_units=False):
             feat["error_through_wrappers"] += 1
         if touched and b["expect"]["kind"] == "metric":
             feat["unit_conversions_in_stacks"] += 1
+        if b["base"] in ("zero", "zeron") and b["stack"] and b["expect"]["kind"] == "metric":
+            feat["metric_call_without_observations_through_wrappers"] += 1
         if "None" in ws or "FmtNone" in ws:
             feat["empty_option"] += 1
         if any(w.startswith("Fmt") for w in ws):
@@ -365,7 +367,7 @@ def check_entry_stacks(chk, rep, tier):
                 "expected_sample_group": mid["sg"]})
 
 
-METRIC_SHAPES = {"u64", "f64", "mean", "tri", "u64_method", "opt_some", "dist_inner", "dist_outer", "box_arc"}
+METRIC_SHAPES = {"u64", "f64", "mean", "tri", "u64_method", "opt_some", "dist_inner", "dist_outer", "box_arc", "zero"}
 ERROR_SHAPES = {"str": "unit-on-string", "mismatch": "unit-mismatch", "dist_mismatch": "unit-mismatch"}
 DUR_SHAPES = {"dur", "dist_dur", "opt_dur"}
 RT_SHAPES = {"rt_tri"}
